@@ -1599,17 +1599,19 @@ func ruleBatchFlagChain(c *chk.Ctx, d *dispatchModel) {
 		return
 	}
 	n := 0
-	ir.Instrs(lp, func(ins ssa.Instruction) {
+	c.P.ExtInstrs(lp, func(ins ssa.Instruction) {
 		st, ok := ins.(*ssa.Store)
 		if !ok || !chk.IsField(st.Addr, c.M.JBatch) {
 			return
 		}
 		n++
-		phi, isPhi := st.Val.(*ssa.Phi)
+		// (a flag handed to a private per-member helper is the argument at its call)
+		val := c.P.Canon(st.Val)
+		phi, isPhi := val.(*ssa.Phi)
 		good := false
 		why := "the flag is not a phi of constants"
 		// the flag may be the comparison itself: firstByte(data) == '['
-		if bo, ok := ir.NormCell(st.Val).(*ssa.BinOp); ok && bo.Op == token.EQL {
+		if bo, ok := ir.NormCell(val).(*ssa.BinOp); ok && bo.Op == token.EQL {
 			kk, isC := ir.ConstInt(bo.Y)
 			other := bo.X
 			if !isC {
